@@ -236,6 +236,48 @@ pub fn bits(m: u128) -> Vec<u32> {
     (0..128).filter(|b| (m >> b) & 1 == 1).collect()
 }
 
+/// The parsed `defoverrides` table.  The fields of `Override` are private, so the table is read off
+/// the derived `Debug` rendering of `cfg.overrides`:
+///   Override { in_non_mod_osc: KEY_A, out_non_mod_osc: KEY_X, in_mod_oscs: [KEY_LEFTSHIFT], out_mod_oscs: [] }
+/// Result: [{"ik","okc","im":[..],"om":[..]}...] (codes); the order within one input key is the
+/// parser's, which is all that matters (the table is grouped by input key).
+pub fn overrides_json(cfg: &Cfg) -> Value {
+    use kanata_parser::keys::OsCode;
+    let mut by_name: HashMap<String, u16> = HashMap::new();
+    for c in 0u16..=767 {
+        if let Some(o) = OsCode::from_u16(c) {
+            by_name.entry(format!("{o:?}")).or_insert(c);
+        }
+    }
+    let dbg = format!("{:?}", cfg.overrides);
+    let code = |n: &str| -> Value {
+        by_name.get(n.trim()).map(|c| json!(c)).unwrap_or(json!(n.trim()))
+    };
+    let list = |s: &str| -> Vec<Value> {
+        s.split(',').filter(|x| !x.trim().is_empty()).map(|x| code(x)).collect()
+    };
+    let field = |chunk: &str, name: &str, open: &str, close: &str| -> String {
+        let key = format!("{name}: {open}");
+        match chunk.find(&key) {
+            Some(i) => {
+                let rest = &chunk[i + key.len()..];
+                let j = rest.find(close).unwrap_or(rest.len());
+                rest[..j].to_string()
+            }
+            None => String::new(),
+        }
+    };
+    let mut out = vec![];
+    for chunk in dbg.split("Override { ").skip(1) {
+        let ik = field(chunk, "in_non_mod_osc", "", ",");
+        let okc = field(chunk, "out_non_mod_osc", "", ",");
+        let im = field(chunk, "in_mod_oscs", "[", "]");
+        let om = field(chunk, "out_mod_oscs", "[", "]");
+        out.push(json!({"ik": code(&ik), "okc": code(&okc), "im": list(&im), "om": list(&om)}));
+    }
+    json!(out)
+}
+
 /// `universe`: the real-key codes of the instance. Virtual keys: all defined ones.
 pub fn dump_cfg(cfg: &Cfg, universe: &[u16]) -> Value {
     let l = cfg.layout.b();
@@ -305,6 +347,7 @@ pub fn dump_cfg(cfg: &Cfg, universe: &[u16]) -> Value {
             "sequence_backtrack_modcancel": o.sequence_backtrack_modcancel,
             "sequence_always_on": o.sequence_always_on,
             "override_release_on_activation": o.override_release_on_activation,
+            "overrides": overrides_json(cfg),
             "dynamic_macro_max_presses": o.dynamic_macro_max_presses,
             "dynamic_macro_replay_delay_behaviour": format!("{:?}", o.dynamic_macro_replay_delay_behaviour),
             "chords_v2_min_idle": o.chords_v2_min_idle,
